@@ -9,7 +9,7 @@ for d in seeded/*/; do
   s=$(basename $d)
   [ -f $d/meta.json ] || continue
   prop=$(python3 -c "import json;print(json.load(open('$d/meta.json'))['property'])")
-  if ! git -C /repo apply --check $d/patch.diff 2>/dev/null; then
+  if ! git -C /repo apply --check /verif/$d/patch.diff 2>/dev/null; then
     echo "| $s | $prop | no (context changed by a later repair) | - | - |" >> $out.tmp; continue
   fi
   extra=""
